@@ -142,6 +142,16 @@ def run(ctx):
             for conc, mode in ((1, "read"), (4, "read"), (1, "writeto"), (4, "writeto")) if (not q or pi % 2 == 0) else ((1, "read"), (4, "writeto")):
                 cfg = {"conc": conc, "mode": mode, "bufs": [rnd.choice([4096, 70000, 13])], "frag": pat, "eofw": (pi + conc) % 2 == 0}
                 rcases.append({"id": len(rcases) + 1, "chunks": [{"file": c["save"]}], "cfg": cfg, "content": c["input"], "tag": {"hit": False, "base": c["id"]}})
+        # ... behind a skippable frame (a source failure while its bytes are being skipped), and with Read buffers that
+        # cross block boundaries (an error that arrives after bytes were already delivered in the same call)
+        if c is frames[0] or c is frames[-1]:
+            for conc, mode in ((1, "read"), (4, "writeto")):
+                rcases.append({"id": len(rcases) + 1, "chunks": [{"bytes": [0x5B, 0x2A, 0x4D, 0x18, 40, 0, 0, 0] + [3] * 40}, {"file": c["save"]}],
+                               "cfg": {"conc": conc, "mode": mode, "bufs": [4096], "frag": [7], "eofw": False}, "content": c["input"], "tag": {"hit": False, "base": c["id"]}})
+        if n > 70000:
+            for conc in (1, 4):
+                rcases.append({"id": len(rcases) + 1, "chunks": [{"file": c["save"]}], "cfg": {"conc": conc, "mode": "read", "bufs": [rnd.choice([70000, 200000])], "frag": [], "eofw": False},
+                               "content": c["input"], "tag": {"hit": False, "base": c["id"], "once": True}})
     ffr, faults = fl.shard_run(b, "frame-read", rcases, d, "rff", extra=("--watchdog", "60s"))
     if faults:
         raise vlib.MachineryFault("frame-read failed: %s" % faults[0]["stderr"][-800:])
@@ -159,6 +169,12 @@ def run(ctx):
             fc["cfg"]["failkind"] = (k + len(fault_reads)) % 3
             fc["tag"] = {"hit": None, "base": c["tag"]["base"], "k": k}
             fault_reads.append(fc)
+            if c["tag"].get("once") or k % 5 == 0:
+                # a transient fault: only the k-th call fails
+                fo = json.loads(json.dumps(fc))
+                fo["id"] = len(fault_reads) + 100000
+                fo["cfg"]["failonce"] = True
+                fault_reads.append(fo)
     frr, faults = fl.shard_run(b, "frame-read", fault_reads, d, "rf", extra=("--watchdog", "60s"))
     if faults:
         raise vlib.MachineryFault("frame-read (faults) failed: %s" % faults[0]["stderr"][-800:])
